@@ -36,7 +36,7 @@ finally:
     sh('git -C /repo worktree remove --force %s' % wt); shutil.rmtree(wt, ignore_errors=True); shutil.rmtree(vc, ignore_errors=True)
 if src.startswith(os.path.join(V, 'seeded')):
     import fcntl
-    mpath = os.path.join(V, 'seeded', 'matrix.json')
+    mpath = os.environ.get('MATRIX', os.path.join(V, 'seeded', 'matrix.json'))
     with open(mpath + '.lock', 'w') as lk:          # several isolated runs may finish at the same time
         fcntl.flock(lk, fcntl.LOCK_EX)
         allm = json.load(open(mpath)) if os.path.exists(mpath) else {}
